@@ -31,7 +31,9 @@ func init() {
 			// names that are not Go string literal text as they stand
 			{SpecName: "a\"b.yaml"}, {SpecName: "a\\b.yaml", BasePath: "/v1"}, {SpecName: "tab\there.yaml"},
 			// ... and whose extension (spliced into the Content-Type of the answer) is not either
-			{SpecName: "open\"api.ya\\ml"}, {SpecName: "spec.y\"ml", BasePath: "/v3"}}
+			{SpecName: "open\"api.ya\\ml"}, {SpecName: "spec.y\"ml", BasePath: "/v3"},
+			// no extension at all, a trailing dot, a leading dot
+			{SpecName: "openapi"}, {SpecName: "spec.", Client: true}, {SpecName: ".hidden", BasePath: "/v1"}}
 		for name, raw := range forms {
 			for bi, fl := range bases {
 				mk(fmt.Sprintf("specfile/%s/base%d", name, bi), raw, ".json", fl)
